@@ -100,11 +100,13 @@ type Exec struct {
 	usedLemmas  map[string]bool
 	splitGoals  bool
 	trigQuadrants bool
+	curState    *State
 	regions     map[string]*Cell
 	schemaCtr   int
 	curResultDyn types.Type
 	recvCtr     int
 	freshBase   map[string]int
+	ufMemoBase  map[string]*Term
 	entryState  *State
 	curSkolems  map[string]Value
 	specs       map[string]*SpecFunc
@@ -808,6 +810,24 @@ func theoryAxioms(apps []appRec) []*Term {
 			logs = append(logs, a)
 		}
 	}
+	// pow2: positive, doubling with the exponent
+	var pows []appRec
+	for _, a := range apps {
+		if a.fn == "pow2" {
+			pows = append(pows, a)
+		}
+	}
+	for i, a := range pows {
+		out = append(out, mkImplies(mkLe(mkInt(0), a.args[0]), mkLe(mkInt(1), a.res)))
+		out = append(out, mkImplies(mkEq(a.args[0], mkInt(0)), mkEq(a.res, mkInt(1))))
+		out = append(out, mkImplies(mkEq(a.args[0], mkInt(1)), mkEq(a.res, mkInt(2))))
+		for j, b := range pows {
+			if i == j {
+				continue
+			}
+			out = append(out, mkImplies(mkAnd(mkLe(mkInt(0), b.args[0]), mkEq(a.args[0], mkAdd(b.args[0], mkInt(1)))), mkEq(a.res, mkMul(mkInt(2), b.res))))
+		}
+	}
 	zero := mkRealInt(0)
 	for i := 0; i < len(exps); i++ {
 		for j := i + 1; j < len(exps); j++ {
@@ -1081,7 +1101,7 @@ func (x *Exec) runInstrs(st *State, fr *Frame, b *ssa.BasicBlock, idx int, prev 
 				_ = id
 			}
 			if obj := in.Object(); obj != nil {
-				if _, isVar := obj.(*types.Var); isVar {
+				if vobj, isVar := obj.(*types.Var); isVar && !vobj.IsField() {
 					if v, ok := x.tryVal(fr, in.X); ok {
 						fr.env[obj.Name()] = envEntry{v: v, addr: in.IsAddr}
 					}
